@@ -318,8 +318,12 @@ func (e *c09Env) apply(op c09Op) *c09Viol {
 					return &c09Viol{"failed-revert-changed-store/" + shape, fmt.Sprintf("Revert(%d) at tip %d failed (%v) but %s changed from %s to %s", op.N, tip, err, k, b, after[k])}
 				}
 			}
-			// the property demands atomicity of a failing revert, not that it succeeds: the list
-			// model treats a failed revert as a no-op
+			if op.N <= tip {
+				// No fault is injected here: both delete-missing behaviours are ordinary back
+				// ends, and on the abstract list revert(t) for t <= tip always succeeds. A
+				// refused legal revert leaves the repository out of step with the list.
+				return &c09Viol{"legal-revert-refused/" + shape, fmt.Sprintf("Revert(%d) at tip %d was refused on a fault-free back end: %v", op.N, tip, err)}
+			}
 			return nil
 		}
 		e.removed = nil
